@@ -312,65 +312,71 @@ def escEval (call : String → Tree → Tree → Bool) (e : String) (x : Tree) :
   e == "isWherePattern" && !x.isNil && foldEq (fld x "Type") (fld wherePattern "Type")
     && call "areEqualExpr" (fld x "Expr") (fld wherePattern "Expr")
 
+/-- `areEqualSelectExpr`: the hand-written cases of its type switch -/
+def selectExprSpecial (call : String → Tree → Tree → Bool) (q p : Tree) (k : String) : Option Bool :=
+  if k == "StarExpr" then
+    some (q.kind == "StarExpr" && call "areEqualTableName" (fld q "TableName") (fld p "TableName"))
+  else if k == "AliasedExpr" then
+    if q.kind != "AliasedExpr" then
+      some (q.kind == "StarExpr" && (fld p "Expr").kind == "ColName" && isColumnPattern (fld (fld p "Expr") "Name"))
+    else some (call "areEqualAliasedExpr" q p)
+  else none
+
+/-- `areEqualInsertRows`: case `sqlparser.Values` -/
+def insertRowsSpecial (call : String → Tree → Tree → Bool) (q p : Tree) (k : String) : Option Bool :=
+  if k == "Values" then some (q.kind == "Values" && all2 (call "areEqualValTuple") q.kids p.kids) else none
+
+/-- `areEqualExpr`: cases `*sqlparser.SQLVal` and `*sqlparser.ColName` -/
+def exprSpecial (call : String → Tree → Tree → Bool) (q p : Tree) (k : String) : Option Bool :=
+  if k == "SQLVal" then
+    if q.kind == "SQLVal" then some (call "areEqualSQLVal" q p)
+    else if q.kind == "BoolVal" || q.kind == "NullVal" || q.kind == "FuncExpr" then
+      some (isValuePattern p || isListOfValuesPattern p)
+    else some false
+  else if k == "ColName" then
+    if q.kind == "ColName" then some (call "areEqualColName" q p)
+    else if q.kind == "SQLVal" || q.kind == "Subquery" || q.kind == "FuncExpr" || q.kind == "CaseExpr" || q.kind == "ParenExpr" then
+      some (isColumnPattern (fld p "Name"))
+    else some false
+  else none
+
+/-- the hand-written functions (`specialFns`), following the Go text -/
+def evalSpecial (call : String → Tree → Tree → Bool) (fn : String) (q p : Tree) : Bool :=
+  if fn == "areEqualSQLVal" then
+    isValuePattern p || isListOfValuesPattern p
+      || ((fld q "Type").leafBytes == (fld p "Type").leafBytes && (fld q "Val").leafBytes == (fld p "Val").leafBytes)
+  else if fn == "areEqualColIdent" then
+    isColumnPattern p || lowerBytes (fld q "val").leafBytes == lowerBytes (fld p "val").leafBytes
+  else if fn == "areEqualSubquery" then
+    if !call "areEqualSelectStatement" (fld q "Select") (fld p "Select") then fld p "Select" == subqueryPattern else true
+  else if fn == "areEqualValTuple" then
+    if !prefixAll (call "areEqualExpr") q.kids p.kids then false
+    else if q.kids.length > p.kids.length then
+      match p.kids.getLast? with
+      | some l => l.kind == "SQLVal" && isListOfValuesPattern l
+      | none => false
+    else true
+  else if fn == "areEqualSelectExprs" then
+    if p.kids.length == 1 && (p.kids.head?.map (·.kind)) == some "StarExpr" then true
+    else all2 (call "areEqualSelectExpr") q.kids p.kids
+  else if fn == "areEqualSelectExpr" then typeSwitchEval call fn q p (selectExprSpecial call q p)
+  else if fn == "areEqualInsertRows" then typeSwitchEval call fn q p (insertRowsSpecial call q p)
+  else if fn == "areEqualExpr" then
+    if q.isNil && p.isNil then true
+    else if q.isNil || p.isNil then false
+    else typeSwitchEval call fn q p (exprSpecial call q p)
+  else false  -- handleStreamStatement: a stub that returns false
+
 /-- `fn(query, pattern)` for every function of `matching_logic.go` (by name). -/
 def evalFn : Nat → String → Tree → Tree → Bool
   | 0, _, _, _ => false
   | fuel + 1, fn, q, p =>
     let call := evalFn fuel
-    let esc : String → Tree → Bool := escEval call
-    let typeSwitch (special : String → Option Bool) : Bool := typeSwitchEval call fn q p special
     if !specialFns.contains fn then
       match comparators.lookup fn with
-      | some (fin, steps) => runSteps call esc q p fin (steps.length + 1) steps
-      | none => typeSwitch fun _ => none
-    else
-    match fn with
-    | "handleStreamStatement" => false
-    | "areEqualSQLVal" =>
-      isValuePattern p || isListOfValuesPattern p
-        || ((fld q "Type").leafBytes == (fld p "Type").leafBytes && (fld q "Val").leafBytes == (fld p "Val").leafBytes)
-    | "areEqualColIdent" =>
-      isColumnPattern p || lowerBytes (fld q "val").leafBytes == lowerBytes (fld p "val").leafBytes
-    | "areEqualSubquery" =>
-      if !call "areEqualSelectStatement" (fld q "Select") (fld p "Select") then fld p "Select" == subqueryPattern else true
-    | "areEqualValTuple" =>
-      if !prefixAll (call "areEqualExpr") q.kids p.kids then false
-      else if q.kids.length > p.kids.length then
-        match p.kids.getLast? with
-        | some l => l.kind == "SQLVal" && isListOfValuesPattern l
-        | none => false
-      else true
-    | "areEqualSelectExprs" =>
-      if p.kids.length == 1 && (p.kids.head?.map (·.kind)) == some "StarExpr" then true
-      else all2 (call "areEqualSelectExpr") q.kids p.kids
-    | "areEqualSelectExpr" =>
-      typeSwitch fun k =>
-        if k == "StarExpr" then
-          some (q.kind == "StarExpr" && call "areEqualTableName" (fld q "TableName") (fld p "TableName"))
-        else if k == "AliasedExpr" then
-          if q.kind != "AliasedExpr" then
-            some (q.kind == "StarExpr" && (fld p "Expr").kind == "ColName" && isColumnPattern (fld (fld p "Expr") "Name"))
-          else some (call "areEqualAliasedExpr" q p)
-        else none
-    | "areEqualInsertRows" =>
-      typeSwitch fun k =>
-        if k == "Values" then some (q.kind == "Values" && all2 (call "areEqualValTuple") q.kids p.kids) else none
-    | "areEqualExpr" =>
-      if q.isNil && p.isNil then true
-      else if q.isNil || p.isNil then false
-      else typeSwitch fun k =>
-        if k == "SQLVal" then
-          if q.kind == "SQLVal" then some (call "areEqualSQLVal" q p)
-          else if q.kind == "BoolVal" || q.kind == "NullVal" || q.kind == "FuncExpr" then
-            some (isValuePattern p || isListOfValuesPattern p)
-          else some false
-        else if k == "ColName" then
-          if q.kind == "ColName" then some (call "areEqualColName" q p)
-          else if q.kind == "SQLVal" || q.kind == "Subquery" || q.kind == "FuncExpr" || q.kind == "CaseExpr" || q.kind == "ParenExpr" then
-            some (isColumnPattern (fld p "Name"))
-          else some false
-        else none
-    | _ => false
+      | some (fin, steps) => runSteps call (escEval call) q p fin (steps.length + 1) steps
+      | none => typeSwitchEval call fn q p fun _ => none
+    else evalSpecial call fn q p
 
 /-- `checkSinglePatternMatch(query, pattern)` -/
 def checkSinglePatternMatch (fuel : Nat) (q p : Tree) : Bool :=
@@ -429,32 +435,88 @@ theorem evalFn_regular (fuel : Nat) (fn : String) (q p : Tree) (fin : Bool) (ste
   simp only [evalFn, hs, hl, Bool.not_false, if_true]
   rfl
 
+/-! ### the hand-written functions, unfolded -/
+
+theorem evalFn_special (fuel : Nat) (fn : String) (q p : Tree) (hs : specialFns.contains fn = true) :
+    evalFn (fuel + 1) fn q p = evalSpecial (evalFn fuel) fn q p := by
+  simp only [evalFn, hs, Bool.not_true, Bool.false_eq_true, if_false]
+
+theorem evalFn_SQLVal (fuel : Nat) (q p : Tree) :
+    evalFn (fuel + 1) "areEqualSQLVal" q p = (isValuePattern p || isListOfValuesPattern p
+      || ((fld q "Type").leafBytes == (fld p "Type").leafBytes && (fld q "Val").leafBytes == (fld p "Val").leafBytes)) := by
+  rw [evalFn_special _ _ _ _ (by decide)]; rfl
+
+theorem evalFn_ColIdent (fuel : Nat) (q p : Tree) :
+    evalFn (fuel + 1) "areEqualColIdent" q p =
+      (isColumnPattern p || lowerBytes (fld q "val").leafBytes == lowerBytes (fld p "val").leafBytes) := by
+  rw [evalFn_special _ _ _ _ (by decide)]; rfl
+
+theorem evalFn_Subquery (fuel : Nat) (q p : Tree) :
+    evalFn (fuel + 1) "areEqualSubquery" q p =
+      (if !evalFn fuel "areEqualSelectStatement" (fld q "Select") (fld p "Select") then fld p "Select" == subqueryPattern else true) := by
+  rw [evalFn_special _ _ _ _ (by decide)]; rfl
+
+theorem evalFn_ValTuple (fuel : Nat) (q p : Tree) :
+    evalFn (fuel + 1) "areEqualValTuple" q p =
+      (if !prefixAll (evalFn fuel "areEqualExpr") q.kids p.kids then false
+       else if q.kids.length > p.kids.length then
+         match p.kids.getLast? with
+         | some l => l.kind == "SQLVal" && isListOfValuesPattern l
+         | none => false
+       else true) := by
+  rw [evalFn_special _ _ _ _ (by decide)]; rfl
+
+theorem evalFn_SelectExprs (fuel : Nat) (q p : Tree) :
+    evalFn (fuel + 1) "areEqualSelectExprs" q p =
+      (if p.kids.length == 1 && (p.kids.head?.map (·.kind)) == some "StarExpr" then true
+       else all2 (evalFn fuel "areEqualSelectExpr") q.kids p.kids) := by
+  rw [evalFn_special _ _ _ _ (by decide)]; rfl
+
+theorem evalFn_SelectExpr (fuel : Nat) (q p : Tree) :
+    evalFn (fuel + 1) "areEqualSelectExpr" q p =
+      typeSwitchEval (evalFn fuel) "areEqualSelectExpr" q p (selectExprSpecial (evalFn fuel) q p) := by
+  rw [evalFn_special _ _ _ _ (by decide)]; rfl
+
+theorem evalFn_InsertRows (fuel : Nat) (q p : Tree) :
+    evalFn (fuel + 1) "areEqualInsertRows" q p =
+      typeSwitchEval (evalFn fuel) "areEqualInsertRows" q p (insertRowsSpecial (evalFn fuel) q p) := by
+  rw [evalFn_special _ _ _ _ (by decide)]; rfl
+
+theorem evalFn_Expr (fuel : Nat) (q p : Tree) :
+    evalFn (fuel + 1) "areEqualExpr" q p =
+      (if q.isNil && p.isNil then true
+       else if q.isNil || p.isNil then false
+       else typeSwitchEval (evalFn fuel) "areEqualExpr" q p (exprSpecial (evalFn fuel) q p)) := by
+  rw [evalFn_special _ _ _ _ (by decide)]; rfl
+
+/-- a type switch without hand-written cases -/
+theorem evalFn_switch (fuel : Nat) (fn : String) (q p : Tree) (hs : specialFns.contains fn = false)
+    (hl : comparators.lookup fn = none) :
+    evalFn (fuel + 1) fn q p = typeSwitchEval (evalFn fuel) fn q p fun _ => none := by
+  simp only [evalFn, hs, hl, Bool.not_false, if_true]
+
 /-! ### what a placeholder matches -/
 
 /-- `%%VALUE%%` (and `%%LIST_OF_VALUES%%`) match every literal. -/
 theorem value_matches (fuel : Nat) (q : Tree) : evalFn (fuel + 1) "areEqualSQLVal" q valuePattern = true := by
   have : isValuePattern valuePattern = true := by decide
-  simp [evalFn, this]
-  exact Or.inl (by decide)
+  rw [evalFn_SQLVal, this]; rfl
 
 theorem listOfValues_matches (fuel : Nat) (q : Tree) : evalFn (fuel + 1) "areEqualSQLVal" q listOfValuesPattern = true := by
   have : isListOfValuesPattern listOfValuesPattern = true := by decide
-  simp [evalFn, this]
-  exact Or.inl (by decide)
+  rw [evalFn_SQLVal, this]; simp
 
 /-- `%%COLUMN%%` matches every identifier. -/
 theorem column_matches (fuel : Nat) (q : Tree) : evalFn (fuel + 1) "areEqualColIdent" q columnPattern = true := by
   have : isColumnPattern columnPattern = true := by decide
-  simp [evalFn, this]
-  exact Or.inl (by decide)
+  rw [evalFn_ColIdent, this]; rfl
 
 /-- `(%%SUBQUERY%%)` matches every sub-select. -/
 theorem subquery_matches (fuel : Nat) (q : Tree) :
     evalFn (fuel + 1) "areEqualSubquery" q (.node "Subquery" [subqueryPattern]) = true := by
   have h : fld (.node "Subquery" [subqueryPattern]) "Select" = subqueryPattern := by rfl
   have h2 : (subqueryPattern == subqueryPattern) = true := Tree.beq_refl _
-  have hsp : specialFns.contains "areEqualSubquery" = true := by decide
-  simp only [evalFn, h, h2, hsp]
+  rw [evalFn_Subquery, h, h2]
   simp
 
 end AcraModel.Censor.Match
